@@ -393,7 +393,18 @@ func c02prepare(ops []string) {
 	var lines []string
 	seen := map[string]bool{}
 	for _, op := range ops {
-		if !strings.HasPrefix(op, "multi ") && !strings.HasPrefix(op, "seq ") || seen[op] {
+		if seen[op] {
+			continue
+		}
+		if strings.HasPrefix(op, "fn ") {
+			seen[op] = true
+			if s, ok := c02fnSnippet(op); ok {
+				snips = append(snips, s)
+				lines = append(lines, op)
+			}
+			continue
+		}
+		if !strings.HasPrefix(op, "multi ") && !strings.HasPrefix(op, "seq ") {
 			continue
 		}
 		seen[op] = true
@@ -634,33 +645,33 @@ func sortedStrings(s []string) []string {
 var c02multiKinds = []string{"int", "int8", "uint16", "uint64", "float64", "string", "bool", "complex128", "float32", "uint8"}
 
 var c02multiPatterns = []string{
-	"X Y SET Y X",                     // swap (assign2, both variables)
-	"X Y Z SET Y Z X",                 // rotate (assignMulti)
-	"A0 A1 SET A1 A0",                 // swap of array elements (assign2, two places)
-	"AI X SET X AI",                   // place + variable
-	"X A1 SET A1 X",                   // variable + place
-	"Ma Mb SET Mb Ma",                 // map elements (assignMulti)
-	"Ma Mc SET Mc Ma",                 // absent key read and written
-	"P0 P2 SET RX RY",                 // pointer places, logging calls
-	"S0 S2 SET S2 S0",                 // slice elements
-	"I AI SET #i1 X",                  // i, a[i] = 1, x   (index evaluated before I is assigned)
-	"AI I SET X #i2",                  // a[i], i = x, 2
-	"I SI SET #i2 Y",                  //
-	"X Y SET two",                     // multi-valued call
-	"X Y Z SET three",                 //
-	"_ X SET RY RZ",                   // blank place: operand still evaluated
-	"X _ SET two",                     //
-	"_ _ SET RX RY",                   //
-	"_ _ Z SET three",                 //
-	"Ac1 P2 Mka SET RX RY RZ",         // order: place operands left to right, then right-hand sides
-	"Mkb Ac0 SET RZ RX",               //
-	"Ac2 Ac2 SET RX RY",               // the same place twice: the last assignment wins
-	"X X SET RY RZ",                   //
-	"Ma Ma SET X Y",                   //
-	"P1 A1 SET X Y",                   // aliasing through a pointer
-	"A1 S1 SET Y Z",                   // aliasing through a slice
-	"X Y SET A0 A1 ; A0 A1 SET Y X",   // two statements
-	"X Y SET Y X ; Y Z SET Z Y",       //
+	"X Y SET Y X",                      // swap (assign2, both variables)
+	"X Y Z SET Y Z X",                  // rotate (assignMulti)
+	"A0 A1 SET A1 A0",                  // swap of array elements (assign2, two places)
+	"AI X SET X AI",                    // place + variable
+	"X A1 SET A1 X",                    // variable + place
+	"Ma Mb SET Mb Ma",                  // map elements (assignMulti)
+	"Ma Mc SET Mc Ma",                  // absent key read and written
+	"P0 P2 SET RX RY",                  // pointer places, logging calls
+	"S0 S2 SET S2 S0",                  // slice elements
+	"I AI SET #i1 X",                   // i, a[i] = 1, x   (index evaluated before I is assigned)
+	"AI I SET X #i2",                   // a[i], i = x, 2
+	"I SI SET #i2 Y",                   //
+	"X Y SET two",                      // multi-valued call
+	"X Y Z SET three",                  //
+	"_ X SET RY RZ",                    // blank place: operand still evaluated
+	"X _ SET two",                      //
+	"_ _ SET RX RY",                    //
+	"_ _ Z SET three",                  //
+	"Ac1 P2 Mka SET RX RY RZ",          // order: place operands left to right, then right-hand sides
+	"Mkb Ac0 SET RZ RX",                //
+	"Ac2 Ac2 SET RX RY",                // the same place twice: the last assignment wins
+	"X X SET RY RZ",                    //
+	"Ma Ma SET X Y",                    //
+	"P1 A1 SET X Y",                    // aliasing through a pointer
+	"A1 S1 SET Y Z",                    // aliasing through a slice
+	"X Y SET A0 A1 ; A0 A1 SET Y X",    // two statements
+	"X Y SET Y X ; Y Z SET Z Y",        //
 	"X Y Z SET Z X Y ; AI Ac1 SET X Y", //
 }
 
